@@ -459,3 +459,36 @@ Proof.
   eexists. split; [reflexivity|]. unfold retrieve_opt, retrieve_with.
   change (find _ get_rules) with (Some (MAXMSGSIZE, GI64, F_maxmsgsize)). cbv beta iota. unfold oget. now rewrite oset_same.
 Qed.
+
+(* interval options read back as written (0 = off included) *)
+Section IvlGet.
+  Variables (ID : Z) (F : field) (K : pk).
+  Hypothesis HK : K = KHeartbeat \/ K = KHandshake.
+  Hypothesis HR : find_rule apply_rules ID = Some (R ID K F []).
+  Hypothesis HG : find (fun '(i, _, _) => i =? ID) get_rules = Some (ID, GMsTrunc, F).
+  Lemma ivl_get_after_set o v : 0 <= v <= 2147483647 ->
+    exists o', apply_opt o ID (i32_bytes v) = inl o' /\ retrieve_opt o' ID = GOk (i32_bytes v).
+  Proof.
+    intros H. unfold apply_opt, apply_with. rewrite HR.
+    assert (Hrun : run_pk K ID (i32_bytes v) = with_i32 (i32_bytes v) ID (fun v => of_pres (parse_heartbeat v ID))).
+    { destruct HK as [-> | ->]; reflexivity. }
+    cbn [r_pk r_field r_also R fold_left]. rewrite Hrun. unfold with_i32.
+    rewrite i32_roundtrip by (unfold i32r; lia). unfold parse_heartbeat.
+    destruct (Z.eqb_spec v 0) as [->|Hn0].
+    - cbn [of_pres]. eexists. split; [reflexivity|]. unfold retrieve_opt, retrieve_with. rewrite HG. cbv beta iota.
+      unfold oget. rewrite oset_same. reflexivity.
+    - destruct (Z.leb_spec 1 v); [|lia]. cbn [of_pres]. eexists. split; [reflexivity|].
+      unfold retrieve_opt, retrieve_with. rewrite HG. cbv beta iota. unfold oget. rewrite oset_same. cbn [run_gk].
+      now rewrite as_i32_id by (unfold i32r; lia).
+  Qed.
+End IvlGet.
+Theorem heartbeat_get_after_set o v : 0 <= v <= 2147483647 ->
+  (exists o', apply_opt o HEARTBEAT_IVL (i32_bytes v) = inl o' /\ retrieve_opt o' HEARTBEAT_IVL = GOk (i32_bytes v)) /\
+  (exists o', apply_opt o HEARTBEAT_TIMEOUT (i32_bytes v) = inl o' /\ retrieve_opt o' HEARTBEAT_TIMEOUT = GOk (i32_bytes v)) /\
+  (exists o', apply_opt o HANDSHAKE_IVL (i32_bytes v) = inl o' /\ retrieve_opt o' HANDSHAKE_IVL = GOk (i32_bytes v)).
+Proof.
+  intros H. repeat split.
+  - exact (ivl_get_after_set HEARTBEAT_IVL F_heartbeat_ivl KHeartbeat (or_introl eq_refl) eq_refl eq_refl o v H).
+  - exact (ivl_get_after_set HEARTBEAT_TIMEOUT F_heartbeat_timeout KHeartbeat (or_introl eq_refl) eq_refl eq_refl o v H).
+  - exact (ivl_get_after_set HANDSHAKE_IVL F_handshake_ivl KHandshake (or_intror eq_refl) eq_refl eq_refl o v H).
+Qed.
